@@ -75,6 +75,10 @@ pub struct Spec {
     /// handle side of a thread's life runs on a spawned thread
     #[serde(default)]
     pub nested: u8,
+    /// with disp "drop now" and a rendezvous: the handle goes at once (the thread still runs), the next spawn waits
+    /// for the k-th stalled free of this thread's epilogue
+    #[serde(default)]
+    pub drop_first: bool,
 }
 
 impl Spec {
@@ -105,7 +109,7 @@ pub fn encode_batch(b: &Batch) -> Vec<u8> {
         pl.push(s.stall_k);
         pl.push(s.reuse as u8);
         pl.push(s.join_in_print as u8);
-        pl.push(0);
+        pl.push(s.drop_first as u8);
     }
     let mut out = (pl.len() as u32).to_le_bytes().to_vec();
     out.extend_from_slice(&pl);
